@@ -308,39 +308,76 @@ def oracle_rough(np, a, thr, got, dtype="f32"):
     return None
 
 
-def patch_signatures(P, cells_min=0.0):
-    """structural predicates of a refinement patch (matched against known_findings signatures); `cells_min` = smallest map
-    cell the crop reads (for even patch sizes an entry is the mean of four cells: a negative cell can hide in a tiny
-    positive entry, which is the same defect — the normaliser is not bounded away from 0)"""
-    if (P < 0).any() or cells_min < 0:
-        return ["negative_patch"]
-    if float(P.sum()) == 0.0:
-        return ["zero_sum_patch"]
-    return []
-
-
-def window_min(a2, x, y, p):
-    """smallest cell of the (h,w) map `a2` among those a p-crop around (x,y) reads (rows/cols c-p//2 .. c+p//2)"""
+def exact_offsets(a2, x, y, p):
+    """exact (Fraction) integral regression on the TRUE patch of the (h,w) map `a2`: the cells (odd p) / four-cell means
+    (even p) a p-crop around (x,y) reads, zeros outside the map.  Returns (sum, (dx, dy) | None)."""
     h, w = a2.shape
     m = p // 2
+
+    def Z(i, j):
+        return Fraction(float(a2[i, j])) if 0 <= i < h and 0 <= j < w else Fraction(0)
+
+    z = xn = yn = Fraction(0)
+    neg = False
+    for u in range(p):
+        for v in range(p):
+            i0, j0 = y - m + u, x - m + v
+            e = Z(i0, j0) if p % 2 else (Z(i0, j0) + Z(i0, j0 + 1) + Z(i0 + 1, j0) + Z(i0 + 1, j0 + 1)) / 4
+            neg = neg or e < 0
+            z += e
+            xn += Fraction(2 * v - (p - 1), 2) * e
+            yn += Fraction(2 * u - (p - 1), 2) * e
+    return z, (None if z == 0 else (xn / z, yn / z)), neg
+
+
+def ring_min(a2, x, y, p):
+    """smallest cell among those a p-crop around (x,y) reads PLUS the one-cell ring around them: kornia's bilinear
+    sampling positions are off by ~2.4e-7, so the ring leaks into the patch with that weight"""
+    h, w = a2.shape
+    m = p // 2 + 1
     win = a2[max(0, y - m): min(h, y + m + 1), max(0, x - m): min(w, x + m + 1)]
     return float(win.min()) if win.size else 0.0
 
 
+def explain_bound_failure(np, a2, x, y, p):
+    """EFFECT-based signatures for a refined point that left the p/2 box (known_findings signatures):
+    * `zero_sum_patch`  — the true patch sums to exactly 0 and has no negative entry (F-C06z);
+    * `negative_patch`  — (F-C06) either the exact estimator on the true patch itself leaves the box (a theorem says this
+      needs a negative entry: Props/C06 refine_bounded_partial), or exact cancellation to 0, or the true normaliser is
+      within the sampling-leak noise of 0 (|ΣP| < 1e-3·eff_abs_sum, the correspondence's knife-edge criterion) because of
+      a negative cell in the patch or in its one-cell ring;
+    * nothing           — the negatives (if any) do not explain the displacement: an ordinary violation."""
+    if not (0 <= x < a2.shape[1] and 0 <= y < a2.shape[0]):
+        return []
+    z, off, neg = exact_offsets(a2, x, y, p)
+    if off is None:
+        return ["negative_patch"] if neg else ["zero_sum_patch"]
+    if abs(off[0]) > Fraction(p, 2) or abs(off[1]) > Fraction(p, 2):
+        return ["negative_patch"]
+    P = patch_of(np, a2[None, None], 0, 0, x, y, p)
+    if abs(float(z)) < 1e-3 * eff_abs_sum(np, P, a2, p) and ring_min(a2, x, y, p) < 0:
+        return ["negative_patch"]
+    return []
+
+
 def oracle_refine(np, a, rough, refined, p, dtype="f32"):
-    """count/order/indices/values preserved; each point within half a patch of its cell"""
+    """count/order/indices/values preserved; each point within half a patch of its cell.
+    Returns (why, signatures) of the first failing peak that no known signature explains, else of the first failing peak."""
     if refined and refined[0] == "raise":
         return f"raised {refined[1:]}", (["patch_size_1"] if is_p1_raise(refined, p) else [])
     if [(q[2], q[3], q[4]) for q in rough] != [(q[2], q[3], q[4]) for q in refined]:
         return "count/order/indices/values changed by refinement", []
     half = p / 2
+    first = None
     for k, (g, f) in enumerate(zip(rough, refined)):
         dx, dy = f[0] - g[0], f[1] - g[1]
         if not (abs(dx) <= half + BOUND_SLACK[dtype] and abs(dy) <= half + BOUND_SLACK[dtype]):  # NaN/inf fail too
-            P = patch_of(np, a, g[3], g[4], int(g[0]), int(g[1]), p)
-            sigs = patch_signatures(P, window_min(a[g[3], g[4]], int(g[0]), int(g[1]), p))
-            return f"peak #{k} at cell ({g[0]},{g[1]}) moved by ({dx},{dy}), half patch = {half}", sigs
-    return None, []
+            sigs = explain_bound_failure(np, a[g[3], g[4]], int(g[0]), int(g[1]), p)
+            res = (f"peak #{k} at cell ({g[0]},{g[1]}) of map ({g[3]},{g[4]}) moved by ({dx},{dy}), half patch = {half}", sigs)
+            if not sigs:
+                return res
+            first = first or res
+    return first or (None, [])
 
 
 # ------------------------------------------------------------------ one case
